@@ -7,14 +7,14 @@
 #ifndef LIBID
 #define LIBID 1
 #endif
-typedef long (*tree_body_t)(long, long);
+typedef long (*tree_body_t)(long, long, int);
 long tree_fn(long node, long poison)
 {
   static tree_body_t body = NULL;
   if (!body) {
     body = (tree_body_t)dlsym(RTLD_DEFAULT, "harness_tree_body");
   }
-  return body ? body(node, poison) : -1;
+  return body ? body(node, poison, LIBID) : -1;
 }
 int lib_id(void) { return LIBID; }
 int n1(int x) { return x + LIBID; }
